@@ -15,6 +15,11 @@
 (* port has 2 bytes, every other number 8.  Options are sequences of       *)
 (* length 0 or 1.  The *Domain predicates delimit the inputs the statement *)
 (* of C14 speaks about; outside of them the reference is not a judge.      *)
+(*                                                                         *)
+(* Style note: TLC caches the value of an operator *argument* but          *)
+(* re-evaluates a LET definition at every use, so values that are used     *)
+(* more than once are handed to a helper operator instead of being named   *)
+(* in a LET (the helpers carry a digit or a letter suffix).                 *)
 (***************************************************************************)
 EXTENDS Integers, Sequences, FiniteSets, TLC
 
@@ -33,7 +38,8 @@ Code(ch) ==
     ELSE CASE ch = "_" -> 95 [] ch = " " -> 32 [] ch = "/" -> 47 [] ch = "?" -> 63
 
 (* S(<<"a","b">>) = <<97, 98>> *)
-S(t) == [i \in 1..Len(t) |-> Code(t[i])]
+SOf(f) == SubSeq(f, 1, Len(f))      \* a tuple, not a function value: cheap comparisons
+S(t) == SOf([i \in 1..Len(t) |-> Code(t[i])])
 
 Pct   == 37   \* %
 Amp   == 38   \* &
@@ -118,9 +124,9 @@ DivTen(b, i, r, q) ==
     IF i > Len(b) THEN [q |-> q, r |-> r]
     ELSE LET cur == r * 256 + b[i] IN DivTen(b, i + 1, cur % 10, Append(q, cur \div 10))
 
-RECURSIVE DecDigits(_)
-DecDigits(b) == IF IsZero(b) THEN <<>>
-                ELSE LET d == DivTen(b, 1, 0, <<>>) IN Append(DecDigits(d.q), 48 + d.r)
+RECURSIVE DecDigits(_), DecDigits2(_)
+DecDigits(b) == IF IsZero(b) THEN <<>> ELSE DecDigits2(DivTen(b, 1, 0, <<>>))
+DecDigits2(d) == Append(DecDigits(d.q), 48 + d.r)
 
 (* decimal digits of the number with big-endian bytes b *)
 DecBytes(b) == IF IsZero(b) THEN <<48>> ELSE DecDigits(b)
@@ -135,11 +141,10 @@ MTA(b, i, carry) ==
     ELSE LET cur == b[i] * 10 + carry
          IN MTA([b EXCEPT ![i] = cur % 256], i - 1, cur \div 256)
 
-RECURSIVE DTB(_, _, _)
+RECURSIVE DTB(_, _, _), DTB2(_, _, _)
 DTB(s, i, b) ==
-    IF i > Len(s) THEN [ok |-> TRUE, v |-> b]
-    ELSE LET m == MTA(b, Len(b), s[i] - 48)
-         IN IF m.carry # 0 THEN Reject ELSE DTB(s, i + 1, m.b)
+    IF i > Len(s) THEN [ok |-> TRUE, v |-> b] ELSE DTB2(s, i, MTA(b, Len(b), s[i] - 48))
+DTB2(s, i, m) == IF m.carry # 0 THEN Reject ELSE DTB(s, i + 1, m.b)
 
 (* decimal string -> n big-endian bytes; rejects non-numbers and overflow *)
 DecToBytes(s, n) == IF IsDecimal(s) THEN DTB(s, 1, [i \in 1..n |-> 0]) ELSE Reject
@@ -158,7 +163,8 @@ SplitFrom(s, ch, start, i) ==
 Split(s, ch) == SplitFrom(s, ch, 1, 1)
 
 Count(s, ch) == Cardinality({i \in 1..Len(s) : s[i] = ch})
-IndexOf(s, ch) == LET I == {i \in 1..Len(s) : s[i] = ch} IN IF I = {} THEN 0 ELSE SetMin(I)
+MinOr0(I) == IF I = {} THEN 0 ELSE SetMin(I)
+IndexOf(s, ch) == MinOr0({i \in 1..Len(s) : s[i] = ch})
 
 (* well-formed: non-empty list of key=value, key not empty, no '=' in value *)
 WellFormedQuery(q) ==
@@ -166,13 +172,14 @@ WellFormedQuery(q) ==
     /\ \A i \in 1..Len(q) : q[i] \in 0..255
     /\ \A seg \in SeqRange(Split(q, Amp)) : Count(seg, EqSgn) = 1 /\ seg[1] # EqSgn
 
-Param(seg) == LET e == IndexOf(seg, EqSgn)
-              IN [k |-> SubSeq(seg, 1, e - 1), v |-> SubSeq(seg, e + 1, Len(seg))]
-Params(q) == LET segs == Split(q, Amp) IN [i \in 1..Len(segs) |-> Param(segs[i])]
+ParamAt(seg, e) == [k |-> SubSeq(seg, 1, e - 1), v |-> SubSeq(seg, e + 1, Len(seg))]
+Param(seg) == ParamAt(seg, IndexOf(seg, EqSgn))
+ParamsOf(segs) == [i \in 1..Len(segs) |-> Param(segs[i])]
+Params(q) == ParamsOf(Split(q, Amp))
 
 (* values of the parameters called `name`, in order of appearance *)
-Vals(ps, name) == LET sel == SelectSeq(ps, LAMBDA p : p.k = name)
-                  IN [j \in 1..Len(sel) |-> sel[j].v]
+ValsOf(sel) == [j \in 1..Len(sel) |-> sel[j].v]
+Vals(ps, name) == ValsOf(SelectSeq(ps, LAMBDA p : p.k = name))
 
 K_info_hash  == S(<<"i","n","f","o","_","h","a","s","h">>)
 K_peer_id    == S(<<"p","e","e","r","_","i","d">>)
@@ -200,78 +207,78 @@ EventName(v) == CASE v = V_started -> "started" [] v = V_stopped -> "stopped"
 EventValue(name) == CASE name = "started" -> V_started [] name = "stopped" -> V_stopped
                       [] name = "completed" -> V_completed [] name = "empty" -> V_empty
 
-ParseAnnounceQuery(q) ==
-    LET ps == Params(q)
-        V(name) == Vals(ps, name)
-    IN IF \E k \in RequiredKeys : V(k) = <<>> THEN Reject
-       ELSE LET ih  == UrlDecode20(V(K_info_hash)[1])
-                pid == UrlDecode20(V(K_peer_id)[1])
-                prt == DecToBytes(V(K_port)[1], 2)
-                up  == DecToBytes(V(K_uploaded)[1], 8)
-                dn  == DecToBytes(V(K_downloaded)[1], 8)
-                lf  == DecToBytes(V(K_left)[1], 8)
-                nw  == IF V(K_numwant) = <<>> THEN [ok |-> TRUE, v |-> <<>>]
-                       ELSE LET x == DecToBytes(V(K_numwant)[1], 8)
-                            IN IF x.ok THEN [ok |-> TRUE, v |-> <<x.v>>] ELSE Reject
-                ky  == IF V(K_key) = <<>> THEN [ok |-> TRUE, v |-> <<>>]
-                       ELSE LET x == PctDecode(V(K_key)[1])
-                            IN IF x.ok THEN [ok |-> TRUE, v |-> <<x.v>>] ELSE Reject
-                ev  == IF V(K_event) = <<>> THEN "empty" ELSE EventName(V(K_event)[1])
-            IN IF ih.ok /\ pid.ok /\ prt.ok /\ up.ok /\ dn.ok /\ lf.ok /\ nw.ok /\ ky.ok /\ ev # "?"
-               THEN [ok |-> TRUE,
-                     req |-> [kind |-> "announce", info_hash |-> ih.v, peer_id |-> pid.v,
-                              port |-> prt.v, uploaded |-> up.v, downloaded |-> dn.v,
-                              left |-> lf.v, event |-> ev, numwant |-> nw.v, key |-> ky.v]]
-               ELSE Reject
+Wrap(x) == IF x.ok THEN [ok |-> TRUE, v |-> <<x.v>>] ELSE Reject
+OptNum8(vs) == IF vs = <<>> THEN [ok |-> TRUE, v |-> <<>>] ELSE Wrap(DecToBytes(vs[1], 8))
+OptText(vs) == IF vs = <<>> THEN [ok |-> TRUE, v |-> <<>>] ELSE Wrap(PctDecode(vs[1]))
+OptEvent(vs) == IF vs = <<>> THEN "empty" ELSE EventName(vs[1])
+
+ParseAnnounce3(ih, pid, prt, up, dn, lf, nw, ky, ev) ==
+    IF ih.ok /\ pid.ok /\ prt.ok /\ up.ok /\ dn.ok /\ lf.ok /\ nw.ok /\ ky.ok /\ ev # "?"
+    THEN [ok |-> TRUE,
+          req |-> [kind |-> "announce", info_hash |-> ih.v, peer_id |-> pid.v,
+                   port |-> prt.v, uploaded |-> up.v, downloaded |-> dn.v,
+                   left |-> lf.v, event |-> ev, numwant |-> nw.v, key |-> ky.v]]
+    ELSE Reject
+
+ParseAnnounce2(ps) ==
+    IF \E k \in RequiredKeys : Vals(ps, k) = <<>> THEN Reject
+    ELSE ParseAnnounce3(UrlDecode20(Vals(ps, K_info_hash)[1]),
+                        UrlDecode20(Vals(ps, K_peer_id)[1]),
+                        DecToBytes(Vals(ps, K_port)[1], 2),
+                        DecToBytes(Vals(ps, K_uploaded)[1], 8),
+                        DecToBytes(Vals(ps, K_downloaded)[1], 8),
+                        DecToBytes(Vals(ps, K_left)[1], 8),
+                        OptNum8(Vals(ps, K_numwant)),
+                        OptText(Vals(ps, K_key)),
+                        OptEvent(Vals(ps, K_event)))
+
+ParseAnnounceQuery(q) == ParseAnnounce2(Params(q))
 
 (* What the statement covers for an announce query: well-formed parameters, *)
 (* each known key at most once, canonical decimal numbers that fit, an      *)
 (* event of the table, compact=1, a short percent-encoded ASCII key.        *)
 (* (Identifiers may be broken: the statement demands their rejection.)      *)
-AnnounceDomain(q) ==
-    /\ WellFormedQuery(q)
-    /\ LET ps == Params(q)
-           V(name) == Vals(ps, name)
-           Num(name, n) == V(name) # <<>> => /\ CanonicalDecimal(V(name)[1])
-                                             /\ DecToBytes(V(name)[1], n).ok
-       IN /\ \A k \in KnownKeys : Len(V(k)) <= 1
-          /\ \A i \in 1..Len(ps) : ps[i].k \in {K_info_hash, K_peer_id} => IdDomain(ps[i].v)
-          /\ Num(K_port, 2) /\ Num(K_uploaded, 8) /\ Num(K_downloaded, 8)
-          /\ Num(K_left, 8) /\ Num(K_numwant, 8)
-          /\ V(K_event) # <<>> => V(K_event)[1] \in EventValues
-          /\ V(K_compact) # <<>> => V(K_compact)[1] = <<49>>
-          /\ V(K_key) # <<>> => /\ Len(V(K_key)[1]) <= 100
-                                /\ PctDecode(V(K_key)[1]).ok
-                                /\ \A b \in SeqRange(PctDecode(V(K_key)[1]).v) : b < 128
+NumOK(vs, n) == vs # <<>> => CanonicalDecimal(vs[1]) /\ DecToBytes(vs[1], n).ok
+AsciiText(d) == d.ok /\ \A i \in 1..Len(d.v) : d.v[i] < 128
+KeyOK(vs) == vs # <<>> => Len(vs[1]) <= 100 /\ AsciiText(PctDecode(vs[1]))
 
-ParseScrapeQuery(q) ==
-    LET hs == Vals(Params(q), K_info_hash)
-        ds == [i \in 1..Len(hs) |-> UrlDecode20(hs[i])]
-    IN IF hs = <<>> \/ \E i \in 1..Len(ds) : ~ds[i].ok THEN Reject
-       ELSE [ok |-> TRUE, req |-> [kind |-> "scrape",
-                                   info_hashes |-> [i \in 1..Len(ds) |-> ds[i].v]]]
+AnnounceDomain2(ps) ==
+    /\ \A k \in KnownKeys : Len(Vals(ps, k)) <= 1
+    /\ \A i \in 1..Len(ps) : ps[i].k \in {K_info_hash, K_peer_id} => IdDomain(ps[i].v)
+    /\ NumOK(Vals(ps, K_port), 2) /\ NumOK(Vals(ps, K_uploaded), 8)
+    /\ NumOK(Vals(ps, K_downloaded), 8) /\ NumOK(Vals(ps, K_left), 8)
+    /\ NumOK(Vals(ps, K_numwant), 8)
+    /\ \A v \in SeqRange(Vals(ps, K_event)) : v \in EventValues
+    /\ \A v \in SeqRange(Vals(ps, K_compact)) : v = <<49>>
+    /\ KeyOK(Vals(ps, K_key))
 
-ScrapeDomain(q) ==
-    /\ WellFormedQuery(q)
-    /\ LET hs == Vals(Params(q), K_info_hash)
-       IN hs # <<>> /\ \A i \in 1..Len(hs) : IdDomain(hs[i])
+AnnounceDomain(q) == WellFormedQuery(q) /\ AnnounceDomain2(Params(q))
+
+ParseScrape3(ds) ==
+    IF ds = <<>> \/ \E i \in 1..Len(ds) : ~ds[i].ok THEN Reject
+    ELSE [ok |-> TRUE, req |-> [kind |-> "scrape", info_hashes |-> [i \in 1..Len(ds) |-> ds[i].v]]]
+ParseScrape2(hs) == ParseScrape3([i \in 1..Len(hs) |-> UrlDecode20(hs[i])])
+ParseScrapeQuery(q) == ParseScrape2(Vals(Params(q), K_info_hash))
+
+ScrapeDomain2(hs) == hs # <<>> /\ \A i \in 1..Len(hs) : IdDomain(hs[i])
+ScrapeDomain(q) == WellFormedQuery(q) /\ ScrapeDomain2(Vals(Params(q), K_info_hash))
 
 L_announce == S(<<"/","a","n","n","o","u","n","c","e">>)
 L_scrape   == S(<<"/","s","c","r","a","p","e">>)
 
-Location(p) == LET i == IndexOf(p, QMark) IN SubSeq(p, 1, i - 1)
-QueryOf(p)  == LET i == IndexOf(p, QMark) IN SubSeq(p, i + 1, Len(p))
-
-ParsePath(p) ==
-    IF IndexOf(p, QMark) = 0 THEN Reject
-    ELSE IF Location(p) = L_announce THEN ParseAnnounceQuery(QueryOf(p))
-    ELSE IF Location(p) = L_scrape THEN ParseScrapeQuery(QueryOf(p))
+ParsePath2(p, i) ==
+    IF i = 0 THEN Reject
+    ELSE IF SubSeq(p, 1, i - 1) = L_announce THEN ParseAnnounceQuery(SubSeq(p, i + 1, Len(p)))
+    ELSE IF SubSeq(p, 1, i - 1) = L_scrape THEN ParseScrapeQuery(SubSeq(p, i + 1, Len(p)))
     ELSE Reject
+(* the location is what precedes the first '?' *)
+ParsePath(p) == ParsePath2(p, IndexOf(p, QMark))
 
-PathDomain(p) ==
-    /\ IndexOf(p, QMark) # 0
-    /\ \/ Location(p) = L_announce /\ AnnounceDomain(QueryOf(p))
-       \/ Location(p) = L_scrape /\ ScrapeDomain(QueryOf(p))
+PathDomain2(p, i) ==
+    /\ i # 0
+    /\ \/ SubSeq(p, 1, i - 1) = L_announce /\ AnnounceDomain(SubSeq(p, i + 1, Len(p)))
+       \/ SubSeq(p, 1, i - 1) = L_scrape /\ ScrapeDomain(SubSeq(p, i + 1, Len(p)))
+PathDomain(p) == PathDomain2(p, IndexOf(p, QMark))
 
 (* reference writers (any parameter order); used by the model's own laws *)
 RECURSIVE JoinFrom(_, _, _)
@@ -311,10 +318,9 @@ RequestDomain(r) ==
 ----------------------------------------------------------------------------
 (* (iii) bencode *)
 
-LexLess(a, b) ==
-    LET n == IF Len(a) < Len(b) THEN Len(a) ELSE Len(b)
-        d == {i \in 1..n : a[i] # b[i]}
-    IN IF d = {} THEN Len(a) < Len(b) ELSE a[SetMin(d)] < b[SetMin(d)]
+LexLess3(a, b, m) == a[m] < b[m]
+LexLess2(a, b, d) == IF d = {} THEN Len(a) < Len(b) ELSE LexLess3(a, b, SetMin(d))
+LexLess(a, b) == LexLess2(a, b, {i \in 1..(IF Len(a) < Len(b) THEN Len(a) ELSE Len(b)) : a[i] # b[i]})
 
 BStr(b) == DecNat(Len(b)) \o <<Colon>> \o b
 BInt(dec) == <<105>> \o dec \o <<101>>
@@ -367,13 +373,12 @@ BencReply(r) == CASE r.kind = "announce" -> BencAnnounce(r)
                   [] r.kind = "failure" -> BencFailure(r)
 
 (* the reply value a reader of the bytes must obtain *)
+CanonFiles(srt) == [i \in 1..Len(srt) |->
+                      [h |-> srt[i].h, complete |-> srt[i].complete,
+                       downloaded |-> Zero8, incomplete |-> srt[i].incomplete]]
 CanonReply(r) ==
     IF r.kind = "scrape"
-    THEN [kind |-> "scrape",
-          files |-> LET srt == SortSeq(r.files, LAMBDA x, y : LexLess(x.h, y.h))
-                    IN [i \in 1..Len(srt) |->
-                          [h |-> srt[i].h, complete |-> srt[i].complete,
-                           downloaded |-> Zero8, incomplete |-> srt[i].incomplete]]]
+    THEN [kind |-> "scrape", files |-> CanonFiles(SortSeq(r.files, LAMBDA x, y : LexLess(x.h, y.h)))]
     ELSE r
 
 (* Replies the statement covers: counts below 2^63 (a bencode reader with   *)
@@ -405,25 +410,25 @@ EndDigits(s, i) == IF i <= Len(s) /\ IsDigit(s[i]) THEN EndDigits(s, i + 1) ELSE
 BFail == [ok |-> FALSE, next |-> 0, t |-> "", b |-> <<>>, kv |-> <<>>]
 BVal(r) == [t |-> r.t, b |-> r.b, kv |-> r.kv]
 
-RECURSIVE BP(_, _), BPDict(_, _, _), BPList(_, _, _)
+BInt2(s, i, j) ==
+    IF j <= Len(s) /\ s[j] = 101 /\ CanonicalDecimal(SubSeq(s, i + 1, j - 1))
+    THEN [ok |-> TRUE, next |-> j + 1, t |-> "int", b |-> SubSeq(s, i + 1, j - 1), kv |-> <<>>]
+    ELSE BFail
+
+BStr3(s, j, n) ==
+    IF j + n <= Len(s)
+    THEN [ok |-> TRUE, next |-> j + n + 1, t |-> "str", b |-> SubSeq(s, j + 1, j + n), kv |-> <<>>]
+    ELSE BFail
+BStr2(s, i, j) ==
+    IF j <= Len(s) /\ s[j] = Colon /\ CanonicalDecimal(SubSeq(s, i, j - 1)) /\ j - i <= 7
+    THEN BStr3(s, j, NatOf(SubSeq(s, i, j - 1), 1, 0))
+    ELSE BFail
+
+RECURSIVE BP(_, _), BPDict(_, _, _), BPDictK(_, _, _), BPDictV(_, _, _, _), BPList(_, _, _), BPListV(_, _, _)
 BP(s, i) ==
     IF i > Len(s) THEN BFail
-    ELSE IF s[i] = 105
-    THEN LET j == EndDigits(s, i + 1)
-             ds == SubSeq(s, i + 1, j - 1)
-         IN IF j <= Len(s) /\ s[j] = 101 /\ CanonicalDecimal(ds)
-            THEN [ok |-> TRUE, next |-> j + 1, t |-> "int", b |-> ds, kv |-> <<>>]
-            ELSE BFail
-    ELSE IF IsDigit(s[i])
-    THEN LET j == EndDigits(s, i)
-             ds == SubSeq(s, i, j - 1)
-         IN IF j <= Len(s) /\ s[j] = Colon /\ CanonicalDecimal(ds) /\ Len(ds) <= 7
-            THEN LET n == NatOf(ds, 1, 0)
-                 IN IF j + n <= Len(s)
-                    THEN [ok |-> TRUE, next |-> j + n + 1, t |-> "str",
-                          b |-> SubSeq(s, j + 1, j + n), kv |-> <<>>]
-                    ELSE BFail
-            ELSE BFail
+    ELSE IF s[i] = 105 THEN BInt2(s, i, EndDigits(s, i + 1))
+    ELSE IF IsDigit(s[i]) THEN BStr2(s, i, EndDigits(s, i))
     ELSE IF s[i] = 100 THEN BPDict(s, i + 1, <<>>)
     ELSE IF s[i] = 108 THEN BPList(s, i + 1, <<>>)
     ELSE BFail
@@ -431,20 +436,23 @@ BP(s, i) ==
 BPDict(s, i, acc) ==
     IF i > Len(s) THEN BFail
     ELSE IF s[i] = 101 THEN [ok |-> TRUE, next |-> i + 1, t |-> "dict", b |-> <<>>, kv |-> acc]
-    ELSE LET k == BP(s, i)
-         IN IF ~k.ok \/ k.t # "str" THEN BFail
-            ELSE IF acc # <<>> /\ ~LexLess(acc[Len(acc)][1], k.b) THEN BFail
-            ELSE LET v == BP(s, k.next)
-                 IN IF ~v.ok THEN BFail ELSE BPDict(s, v.next, Append(acc, <<k.b, BVal(v)>>))
+    ELSE BPDictK(s, acc, BP(s, i))
+BPDictK(s, acc, k) ==
+    IF ~k.ok \/ k.t # "str" THEN BFail
+    ELSE IF acc # <<>> /\ ~LexLess(acc[Len(acc)][1], k.b) THEN BFail     \* keys strictly ascending
+    ELSE BPDictV(s, acc, k, BP(s, k.next))
+BPDictV(s, acc, k, v) ==
+    IF ~v.ok THEN BFail ELSE BPDict(s, v.next, Append(acc, <<k.b, BVal(v)>>))
 
 BPList(s, i, acc) ==
     IF i > Len(s) THEN BFail
     ELSE IF s[i] = 101 THEN [ok |-> TRUE, next |-> i + 1, t |-> "list", b |-> <<>>, kv |-> acc]
-    ELSE LET v == BP(s, i)
-         IN IF ~v.ok THEN BFail ELSE BPList(s, v.next, Append(acc, <<<<>>, BVal(v)>>))
+    ELSE BPListV(s, acc, BP(s, i))
+BPListV(s, acc, v) ==
+    IF ~v.ok THEN BFail ELSE BPList(s, v.next, Append(acc, <<<<>>, BVal(v)>>))
 
-BParse(s) == LET r == BP(s, 1)
-             IN IF r.ok /\ r.next = Len(s) + 1 THEN [ok |-> TRUE, v |-> BVal(r)] ELSE Reject
+BParse2(s, r) == IF r.ok /\ r.next = Len(s) + 1 THEN [ok |-> TRUE, v |-> BVal(r)] ELSE Reject
+BParse(s) == BParse2(s, BP(s, 1))
 
 (* reading a reply out of a parsed value *)
 Keys(v) == [i \in 1..Len(v.kv) |-> v.kv[i][1]]
@@ -457,16 +465,16 @@ Uncompact(b, w) == [i \in 1..(Len(b) \div (w + 2)) |->
 
 Num8(v) == DecToBytes(v.b, 8).v
 
+DecodeFiles(fs) ==
+    [i \in 1..Len(fs.kv) |->
+        [h |-> fs.kv[i][1],
+         complete |-> Num8(Get(fs.kv[i][2], B_complete)),
+         downloaded |-> Num8(Get(fs.kv[i][2], B_downloaded)),
+         incomplete |-> Num8(Get(fs.kv[i][2], B_incomplete))]]
+
 DecodeReply(v) ==
     IF Has(v, B_failure) THEN [kind |-> "failure", reason |-> Get(v, B_failure).b]
-    ELSE IF Has(v, B_files)
-    THEN LET fs == Get(v, B_files)
-         IN [kind |-> "scrape",
-             files |-> [i \in 1..Len(fs.kv) |->
-                          [h |-> fs.kv[i][1],
-                           complete |-> Num8(Get(fs.kv[i][2], B_complete)),
-                           downloaded |-> Num8(Get(fs.kv[i][2], B_downloaded)),
-                           incomplete |-> Num8(Get(fs.kv[i][2], B_incomplete))]]]
+    ELSE IF Has(v, B_files) THEN [kind |-> "scrape", files |-> DecodeFiles(Get(v, B_files))]
     ELSE [kind |-> "announce",
           interval |-> Num8(Get(v, B_interval)),
           complete |-> Num8(Get(v, B_complete)),
